@@ -3,7 +3,8 @@
 Vector map (Engine A): one / two operations from an arbitrary valid state.
 Forest (Engine B): one operation from an arbitrary valid forest (added by mirsmt).
 """
-from .. import kani
+from .. import kani, mirrun
+from . import forest
 
 VMAP = ["vmap_one_op", "vmap_iteration", "vmap_grow"]
 VMAP_THOROUGH = ["vmap_two_ops"]
@@ -19,5 +20,7 @@ def run(out, tier):
     out.trusted += ["Kani 0.68 / CBMC 6.11", "hook VectorMap::verif_from_parts (add-only constructor)"]
     out.assumptions += ["keys that would grow the buffer are exercised with concrete values only "
                         "(symbolic reallocation exhausts memory under CBMC)"]
+    eng = mirrun.load_engine(out)
+    forest.run_forest(out, eng, tier)
     names = VMAP + (VMAP_THOROUGH if tier == "thorough" else []) + TWINS
     kani.run_family(out, names, expect_fail=TWINS, tier=tier)
